@@ -87,7 +87,26 @@ func (self Node) Byte() (byte, error) {
 	return self.byte()
 }
 
+// short reports whether a fixed-size scalar node holds fewer bytes than its type needs
+// (a node built over a truncated buffer, or sliced by a wire type that differs from the descriptor).
+func (self Node) short() bool {
+	n := thrift.TypeSize(self.t)
+	return n > 0 && self.l < n
+}
+
+// strFits reports whether a STRING node holds its 4-byte length prefix and the payload it announces.
+func (self Node) strFits() bool {
+	if self.l < 4 {
+		return false
+	}
+	n := int(thrift.BinaryEncoding{}.DecodeInt32(rt.BytesFrom(self.v, 4, 4)))
+	return n >= 0 && n <= self.l-4
+}
+
 func (self Node) byte() (byte, error) {
+	if self.short() {
+		return 0, errNode(meta.ErrRead, "node is shorter than its type", nil)
+	}
 	switch self.t {
 	case thrift.BYTE:
 		return byte(thrift.BinaryEncoding{}.DecodeByte(rt.BytesFrom(self.v, int(self.l), int(self.l)))), nil
@@ -105,6 +124,9 @@ func (self Node) Bool() (bool, error) {
 }
 
 func (self Node) bool() (bool, error) {
+	if self.short() {
+		return false, errNode(meta.ErrRead, "node is shorter than its type", nil)
+	}
 	switch self.t {
 	case thrift.BOOL:
 		return thrift.BinaryEncoding{}.DecodeBool(rt.BytesFrom(self.v, int(self.l), int(self.l))), nil
@@ -122,6 +144,9 @@ func (self Node) Int() (int, error) {
 }
 
 func (self Node) int() (int, error) {
+	if self.short() {
+		return 0, errNode(meta.ErrRead, "node is shorter than its type", nil)
+	}
 	buf := rt.BytesFrom(self.v, int(self.l), int(self.l))
 	switch self.t {
 	case thrift.I08:
@@ -146,6 +171,9 @@ func (self Node) Float64() (float64, error) {
 }
 
 func (self Node) float64() (float64, error) {
+	if self.short() {
+		return 0, errNode(meta.ErrRead, "node is shorter than its type", nil)
+	}
 	switch self.t {
 	case thrift.DOUBLE:
 		return thrift.BinaryEncoding{}.DecodeDouble(rt.BytesFrom(self.v, int(self.l), int(self.l))), nil
@@ -165,6 +193,9 @@ func (self Node) String() (string, error) {
 func (self Node) string() (string, error) {
 	switch self.t {
 	case thrift.STRING:
+		if !self.strFits() {
+			return "", errNode(meta.ErrRead, "string node is shorter than its length prefix says", nil)
+		}
 		str := thrift.BinaryEncoding{}.DecodeString(rt.BytesFrom(self.v, int(self.l), int(self.l)))
 		// if self.d.IsBinary() {
 		// 	if !utf8.Valid(rt.Str2Mem(str)) {
@@ -188,6 +219,9 @@ func (self Node) Binary() ([]byte, error) {
 func (self Node) binary() ([]byte, error) {
 	switch self.t {
 	case thrift.STRING:
+		if !self.strFits() {
+			return nil, errNode(meta.ErrRead, "binary node is shorter than its length prefix says", nil)
+		}
 		return thrift.BinaryEncoding{}.DecodeBytes(rt.BytesFrom(self.v, int(self.l), int(self.l))), nil
 	default:
 		return nil, errNode(meta.ErrUnsupportedType, "", nil)
